@@ -76,7 +76,32 @@ func (s *MergeExp) HasRef() bool {
 	if s.ForkNode != nil {
 		return true
 	}
-	return s.Value.HasRef()
+	if s.Value.HasRef() {
+		return true
+	}
+	// Even if the value is constant, the number of copies of it is not
+	// known until the source is.
+	return !s.MergeOver.KnownLength() && len(mergeSourceRefs(s.MergeOver)) > 0
+}
+
+// mergeSourceRefs returns the references which determine the length or keys
+// of a merge over the given source.
+func mergeSourceRefs(src MapCallSource) []*RefExp {
+	switch src := src.(type) {
+	case *MapCallSet:
+		if src == nil || src.Master == nil {
+			return nil
+		}
+		return mergeSourceRefs(src.Master)
+	case *BoundReference:
+		if src == nil || src.Exp == nil {
+			return nil
+		}
+		return src.Exp.FindRefs()
+	case Exp:
+		return src.FindRefs()
+	}
+	return nil
 }
 
 func (s *MergeExp) HasSplit() bool {
@@ -121,6 +146,9 @@ func (m *MergeExp) FindRefs() []*RefExp {
 			}
 		}
 		refs = append(refs, m.ForkNode)
+	} else if len(refs) == 0 && !m.MergeOver.KnownLength() {
+		// A constant value, repeated once per element of the source.
+		refs = mergeSourceRefs(m.MergeOver)
 	}
 	return refs
 }
